@@ -234,7 +234,7 @@ impl Check for C04 {
     }
     fn plan(&self, tier: Tier) -> Plan {
         Plan {
-            cases: tier.pick(3000, 200_000),
+            cases: tier.pick(50_000, 1_500_000),
             max_recs: 160,
             max_shrink_iters: 4000,
             workers: 16,
